@@ -209,7 +209,7 @@ def generate(repo, root, use_pinned_for=(), pin=False):
             "From Coq Require Import NArith List Bool.", "Require Import FstV.Base FstV.Generated.SrcParams.", "Open Scope N_scope.", ""]
     body = []
     for n in order:
-        body.append("(* %s *)" % status.get(n, "translated"))
+        body.append("(* %s *)" % status.get(n, "translated").replace("(*", "( *").replace("*)", "* )"))
         body.append(texts[n])
         body.append("")
     report = {"overflow_checks": ovf, "debug_assertions": dbg,
